@@ -1454,6 +1454,9 @@ impl Context {
             Instruction::Array(_, elem_ty) => {
                 *elem_ty = subst(*elem_ty);
             }
+            Instruction::GetArrayElem(_, _, elem_ty) | Instruction::SetArrayElem(_, _, _, elem_ty) => {
+                *elem_ty = subst(*elem_ty);
+            }
             // Instructions without TypeNodeId fields — nothing to substitute.
             _ => {}
         }
